@@ -16,7 +16,7 @@ FENCES = {
  "bus-net-backslash-name-not-reassembled": "C17: multi-bit net names do not start with a backslash",
  "positional-map-before-declaration": "C06/C04: positional maps only when modules are written in declaration-before-use order",
  "flattened-names-written-unescaped": "C04: no flatten before compose",
- "eblif-conn-on-bus-bit-renumbers-bus": "C18: .conn joins a bus bit only when it is the highest bit of its bus",
+ "eblif-conn-on-bus-bit-renumbers-bus": "C18: no write-and-read-back after a .conn on a bus bit below the top bit (the reader's result is still judged against the model)",
 }
 for x in f:
     if x["status"] == "fixed":
